@@ -45,4 +45,14 @@ theorem api_multi : apiMulti .running .dup = .unsupported ∧ apiMulti .booting 
   intro ph c hc
   simp [apiMulti, hc]
 
+/-! Non-vacuity: a complete life of the small-step system - a connection is served, Stop is requested, the loop runs
+its sentinel, closes the connection and exits, the stopper sets the flag - reaches the state the theorems speak of;
+and the table has the entries the property names. -/
+example : let s := run (init 1 false) [.accept 0, .traffic 0 0, .requestStop, .stopper, .stopper, .stopper, .runSentinel 0,
+      .closeOne 0, .loopExit 0, .stopper, .stopper, .stopper]
+    s.inShutdown = true ∧ s.trace = [.open 0, .traffic 0, .shutdown, .close 0] := by decide
+
+example : api .never .stop = .empty ∧ api .running .validate = .nil ∧ api .down .dup = .inShutdown ∧ api .down .count = .minusOne := by
+  decide
+
 end Gnet.Props.C19
